@@ -78,6 +78,7 @@ def run(chk):
     chk.assumptions = ["break/continue appear in statement position only (operand position is C07's workload)",
                        "negative integers cannot be written as patterns in this grammar, so pattern integers are >= 0"]
     chk.floor = 3000
+    chk.rule += '; plus value-less branches ended in every value-less way (nested blocks, loops, lets) with the if / match between other operands and in long loops'
     PRE = "fn t(k) { push(__t, k); k }\n"
     jobs = []   # (tag, src, expected canon list for __o, expected len of __t or None, tags)
     domains = {"int": INT_S + [-1, 7], "char": CHAR_S + [Char("f")], "byte": BYTE_S + [Byte(102)], "str": STR_S + ["ba"]}
@@ -151,6 +152,18 @@ def run(chk):
         jobs.append((("if-novalue", kind(tv), f), "push(__o, if %s { let q = 1; } else { 2 });" % ts, [("i", 2) if f else ("null",)], None, set()))
         jobs.append((("while", kind(tv), f), "let n = 0; while %s { n = n + 1; if n == 3 { break; } } push(__o, n);" % ts,
                      [("i", 0 if f else 3)], None, set()))
+    # branches without a value, ended in every value-less way, with the if / match sitting between other operands: the
+    # neighbours keep their values and the branch yields null
+    ENDINGS = ["let q = 7;", "{ 7; }", "{ }", "{ { 7; } }", "while false { 7; }", "{ let q = 7; }", "7; { 8; }", "{ 7; } { 8; }", "loop { break; }"]
+    for e_i, ending in enumerate(ENDINGS):
+        for pos, tmpl in (("then", "if true { %s } else { 5 }"), ("else", "if false { 5 } else { %s }"), ("else-if", "if false { 5 } else if true { %s } else { 6 }"),
+                          ("else-after-stmt", "if false { 5 } else { q0 = q0 + 1; %s }"), ("match-arm", "match 1 { 1 => { %s }, _ => { 5 } }"),
+                          ("match-default", "match 2 { 1 => { 5 }, _ => { %s } }")):
+            ifx = tmpl % ending
+            jobs.append((("novalue-ending", pos, e_i, "array"), "let q0 = 0; push(__o, [1, %s, 3]);" % ifx, [("a", (("i", 1), ("null",), ("i", 3)))], None, set()))
+            jobs.append((("novalue-ending", pos, e_i, "args"), "let q0 = 0; fn three(a, b, c) { [a, b, c] } push(__o, three(\"a\", %s, \"c\"));" % ifx,
+                         [("a", (("s", "a"), ("null",), ("s", "c")))], None, set()))
+            jobs.append((("novalue-ending", pos, e_i, "loop"), "let q0 = 0; let i = 0; while i < 300 { %s; i = i + 1; } push(__o, i);" % ifx, [("i", 300)], None, set()))
     cases = []
     for i, (tag, src, exp, nt, tags) in enumerate(jobs):
         cases.append(Case("t%d" % i, "let __o = []; let __t = [];\n" + PRE + src, {"globals": "__o,__t", "steps": 100000}))
